@@ -30,7 +30,8 @@ func init() {
 			"(3) ApplyBatch is never reachable after the write-lock release in Commit (apply inside the bracket), and Commit is the only transactional path to storage mutation; " +
 			"(4) Get consults the buffer before storage and goes to storage only on a buffer miss; in NewIterator/NewRangeIterator the buffer iterator is source 0 of the merge and the range scan bounds the buffer iterator with the same bounds as the storage iterator; " +
 			"(5) a finished transaction is inert (C17 rule 1); (6) a successful transactional Put/Delete has buffered exactly that operation; (7) shared with C01/C08: batch entries are stamped with the number the log assigned (a later commit is never shadowed by an older transaction's higher stamp) and an empty value is never turned into a deletion marker on the way into the buffer. " +
-			"Added after blind round 5: the retry wrapper's decision table (exhausted retries report an error).",
+			"Added after blind round 5: the retry wrapper's decision table (exhausted retries report an error). " +
+			"Added after blind round 6: the buffer-view rule of C03; the memtable's snapshot bound nextSeqNum is advanced by Put and Delete alike (cross-listed from C18: a delete-only commit must be visible to later scans).",
 		NotDecided: "equivalence of all interleavings to a serial order (needs histories); non-transactional writers are excluded by the property itself.",
 		Rules:      []func(*Ctx, *Reporter){ruleTxAcquire, ruleTxRelease, ruleTxLockWriters, ruleTxApplyInside, ruleTxOwnWrites, ruleTxFinishOnce, ruleTxOpsBuffered, ruleStStamps, ruleEmptyNotDeleted, subRules(ruleStEffectOnce, "retry-only-on-rotating"), ruleBufferViewsFollowMap, subRules(ruleMemVisibility, "next-seq-guard")},
 	})
